@@ -98,6 +98,8 @@ static const scen_t scenarios[] = {
    "a snapshot taken while a batch (overwrite + delete) is in flight is HELD and re-read (lookups + iterator) after the write and a full compaction completed: its view never moves"},
   {"D19", "B1", 4, "P0.1 P1.1 F", "", {"h01", "P0.1 H P0.1 C"}, 0,
    "two live snapshots of different age: an older one held by a reader, a newer one taken between two overwrites by the thread that then runs a full (merging) compaction: the older snapshot still sees its version"},
+  {"D20", "B1", 4, "", "", {"o c", "o c", "q q"}, 0,
+   "two threads open and close the SAME second directory through handles of their own while another process probes its lock: never two handles at once, the lock is never lost while a handle is open"},
   {"D18f", "B1,reuse=1", 4, "P0.2 P1.2 P0.2", "", {"B[P0.1,D1] P1.2", "h01 h01"}, 0,
    "as D18 with a nearly full memtable: the in-flight write switches memtables and a background flush runs while the snapshot is held"},
   {"D2b", "B1", 4, "", "", {"B[P0.1,P1.1]", "B[D0,D1]", "t t"}, 0,
@@ -144,6 +146,10 @@ static int nrecs[MAXTHR];
 static int final_vids[KV_MAXKEYS];
 static char held_err[400];
 static const ldb_snapshot_t *kept_snap[8];
+#define DB2 "/vfs/db2"
+static ldb_t *own_db[8];
+static kopt_t own_opt[8];
+static int own_open_count;
 static int final_ok;
 static char exec_err[500];
 static ldb_t *gdb;
@@ -172,7 +178,7 @@ parse_prog(int t, const char *s) {
     else if (*s == 'n') { o->kind = 'n'; o->k1 = s[1] - '0'; o->k2 = s[2] - '0'; s += 3; }
     else if (*s == 'h') { o->kind = 'h'; o->k1 = s[1] - '0'; o->k2 = s[2] - '0'; s += 3; }
     else if (*s == 'R') { o->kind = 'R'; o->k1 = s[1] - '0'; s += 2; }
-    else if (strchr("tCFyxKH", *s)) { o->kind = *s; s++; }
+    else if (strchr("tCFyxKHocq", *s)) { o->kind = *s; s++; }
     else vh_die("bad op '%c' in scenario", *s);
     nprog[t]++;
   }
@@ -363,6 +369,49 @@ thread_body(void *arg) {
         r->ret = sch_event();
         break;
       }
+      case 'o': {
+        /* lifecycle under concurrency (C20): this thread opens a SECOND database directory through its own handle */
+        kopt_t ko;
+        int rc;
+        kopt_init(&ko, &cfg);
+        r->inv = sch_event();
+        rc = ldb_open(DB2, &ko.opt, &own_db[t]);
+        r->ret = sch_event();
+        r->status = LDB_OK;
+        if (getenv("VH_DEBUG_LIFE")) fprintf(stderr, "t%d open rc=%d count=%d\n", t, rc, own_open_count);
+        if (rc != LDB_OK) own_db[t] = NULL;
+        else {
+          own_opt[t] = ko;
+          if (++own_open_count > 1 && !held_err[0])
+            snprintf(held_err, sizeof(held_err), "thread %d: ldb_open of %s succeeded while another thread holds an open handle of the same directory", t, DB2);
+        }
+        if (rc != LDB_OK) kopt_clear(&ko);
+        break;
+      }
+      case 'c':
+        sch_yield_point();   /* a scheduling point while the handle is fully open (before the bookkeeping below) */
+        r->inv = sch_event();
+        if (own_db[t]) {
+          own_open_count--;
+          ldb_close(own_db[t]);
+          own_db[t] = NULL;
+          kopt_clear(&own_opt[t]);
+        }
+        r->ret = sch_event();
+        break;
+      case 'q': {
+        /* another PROCESS probes the lock (model's fcntl semantics, compared with the kernel's by the conform driver):
+           it must not get it while a handle is fully open */
+        int got, before = own_open_count;
+        r->inv = sch_event();
+        got = vfs_foreign_trylock(vfs_cur, DB2 "/LOCK");
+        if (got) vfs_foreign_unlock(vfs_cur, DB2 "/LOCK");
+        if (getenv("VH_DEBUG_LIFE")) fprintf(stderr, "t%d probe got=%d before=%d now=%d\n", t, got, before, own_open_count);
+        if (got && before > 0 && own_open_count > 0 && !held_err[0])
+          snprintf(held_err, sizeof(held_err), "thread %d: another process obtains the lock of %s while a thread of this process holds an open handle (a concurrent refused open dropped the lock)", t, DB2);
+        r->ret = sch_event();
+        break;
+      }
       case 'H':
         /* take a snapshot and keep it until this thread's program ends (a second, newer live snapshot) */
         r->inv = sch_event();
@@ -383,6 +432,7 @@ thread_body(void *arg) {
     nrecs[t] = j + 1;
   }
   if (kept_snap[t]) { ldb_release(gdb, kept_snap[t]); kept_snap[t] = NULL; }
+  if (own_db[t]) { own_open_count--; ldb_close(own_db[t]); own_db[t] = NULL; kopt_clear(&own_opt[t]); }
 }
 
 static void
@@ -395,6 +445,8 @@ exec_body(void *arg) {
   exec_err[0] = 0;
   held_err[0] = 0;
   memset(kept_snap, 0, sizeof(kept_snap));
+  memset(own_db, 0, sizeof(own_db));
+  own_open_count = 0;
   final_ok = 0;
   sch_quiet(1);
   kh_init(&h, &cfg, DB);
@@ -625,7 +677,7 @@ run_one(const int *prefix, int nprefix, xres_t *x) {
     snprintf(x->err, sizeof(x->err), "%s", exec_err);
   } else if (held_err[0] && strcmp(prop, "C09") != 0) {
     x->ok = 0;
-    snprintf(x->sig, sizeof(x->sig), "held-snapshot-changed");
+    snprintf(x->sig, sizeof(x->sig), "%s", strstr(held_err, "ldb_open of") || strstr(held_err, "obtains the lock") ? "lock-exclusivity-broken-concurrently" : "held-snapshot-changed");
     snprintf(x->err, sizeof(x->err), "%s", held_err);
   } else if (strcmp(prop, "C09") != 0) {
     char e[600];
